@@ -62,5 +62,5 @@ vg_driver() {
     case "$f" in *.go.txt) cp "$f" "$M/cmd/driver/$(basename "${f%.txt}")" ;; esac
   done
   local out="${!#}"
-  (cd "$M" && go build -trimpath -o "$out" ./cmd/driver) || { echo "HARNESS-ERROR: driver build failed" >&2; return 2; }
+  (cd "$M" && go build -trimpath -overlay "$VERIF_SCRATCH/overlay.json" -o "$out" ./cmd/driver) || { echo "HARNESS-ERROR: driver build failed" >&2; return 2; }
 }
